@@ -485,7 +485,8 @@ def c09(H):
     v = []
     if H.verdict != "quiescent":
         return liveness(H) if H.verdict == "livelock" else v
-    single = len([ops for ops in H.case["program"] if any(op[0] != "sleep" and op[0] != "open_gate" for op in ops)]) == 1
+    single = len([ops for ops in H.case["program"] if any(op[0] != "sleep" and op[0] != "open_gate" for op in ops)]) == 1 \
+        and not any(op[0] == "callback" and op[2] == "get_changed" for ops in H.case["program"] for op in ops)
     created = None      # (timeout, init) the current instance was created with (sequential model)
     max_id = -1
     for g in H.get_log:
@@ -514,6 +515,9 @@ def c09(H):
         if not g["same"]:
             if g["ids_before"] and g["executor_id"] <= max(g["ids_before"]):
                 v.append({"kind": "executor_id_not_increasing", "detail": f"new instance id {g['executor_id']} after ids {g['ids_before']}", "where": "id"})
+            if g.get("earlier_instances_workers_alive") and not g["prev_workers_alive_at_return"]:
+                v.append({"kind": "previous_instance_not_shut_down", "detail": f"a new instance (id {g['executor_id']}) was returned "
+                          f"while workers {g['earlier_instances_workers_alive']} of an earlier instance were still alive", "where": "earlier_alive"})
             if g["prev_workers_alive_at_return"]:
                 v.append({"kind": "previous_instance_not_shut_down", "detail": f"a new instance was returned while workers "
                           f"{g['prev_workers_alive_at_return']} of the previous one were still alive", "where": "prev_alive"})
